@@ -31,8 +31,11 @@ import (
 )
 
 const (
-	c13NKeys = 48 // > subsetSize, so that more than 32 distinct addresses can be registered
+	c13NKeys = 48 // more than 32, so that more than 32 distinct addresses can be registered
 	c13NVals = 48
+	// the bound of the statement ("all of them when there are at most 32"); deliberately
+	// not the package's subsetSize constant
+	c13Limit = 32
 )
 
 var c13ResolverCase int64
@@ -145,19 +148,29 @@ func (h *resolverHarness) check() string {
 			return fmt.Sprintf("address %s is published but not registered; published %v, registered %v", a, sorted(got), keysOf(want))
 		}
 	}
+	// a subscriber joining the resolver's watcher now must see the same registrations
+	probe, err := discov.NewSubscriber(h.etcd.Endpoints(), h.base)
+	if err != nil {
+		return fmt.Sprintf("probe subscriber: %v", err)
+	}
+	pv := probe.Values()
+	probe.Close()
+	if !sameKeys(pv, want) {
+		return fmt.Sprintf("a subscriber joining now sees %v, registered %v", sorted(pv), keysOf(want))
+	}
 	switch {
-	case len(want) <= subsetSize:
-		if len(want) == subsetSize {
+	case len(want) <= c13Limit:
+		if len(want) == c13Limit {
 			h.at32++
 		}
 		if len(got) != len(want) {
 			return fmt.Sprintf("%d addresses registered (at most %d, so all must be published) but %d published; published %v, registered %v",
-				len(want), subsetSize, len(got), sorted(got), keysOf(want))
+				len(want), c13Limit, len(got), sorted(got), keysOf(want))
 		}
 	default:
 		h.over32++
-		if len(got) != subsetSize {
-			return fmt.Sprintf("%d addresses registered but %d published instead of %d", len(want), len(got), subsetSize)
+		if len(got) != c13Limit {
+			return fmt.Sprintf("%d addresses registered but %d published instead of %d", len(want), len(got), c13Limit)
 		}
 	}
 	return ""
@@ -203,6 +216,22 @@ func sorted(xs []string) []string {
 	out := append([]string(nil), xs...)
 	sort.Strings(out)
 	return out
+}
+
+func sameKeys(xs []string, want map[string]bool) bool {
+	got := map[string]bool{}
+	for _, x := range xs {
+		got[x] = true
+	}
+	if len(got) != len(want) {
+		return false
+	}
+	for x := range want {
+		if !got[x] {
+			return false
+		}
+	}
+	return true
 }
 
 func keysOf(m map[string]bool) []string {
